@@ -390,6 +390,23 @@ fn gen(rng: &mut Rng, tier: u32) -> String {
             }
         }
     }
+    // later messages of different files may well carry equal reception times (only the first ones are distinct)
+    if nfiles > 1 && rng.chance(3) {
+        for _ in 0..1 + rng.below(3) {
+            let f = rng.below(nfiles as u64) as usize;
+            let g = rng.below(nfiles as u64) as usize;
+            let mf: Vec<usize> = files[f].iter().enumerate().filter(|(_, i)| matches!(i, Item::Msg(_))).map(|(k, _)| k).skip(1).collect();
+            let mg: Vec<usize> = files[g].iter().enumerate().filter(|(_, i)| matches!(i, Item::Msg(_))).map(|(k, _)| k).skip(1).collect();
+            if f != g && !mf.is_empty() && !mg.is_empty() {
+                let a = *rng.pick(&mf[..]);
+                let b = *rng.pick(&mg[..]);
+                let t = if let Item::Msg(m) = &files[f][a] { m.recv } else { 0 };
+                if let Item::Msg(m) = &mut files[g][b] {
+                    m.recv = t;
+                }
+            }
+        }
+    }
     if rng.chance(10) && nfiles > 1 {
         let i = rng.below(nfiles as u64) as usize;
         files[i] = if rng.chance(2) { vec![] } else { vec![Item::Garbage(vec![b'x'; 1 + rng.below(40) as usize])] };
